@@ -2068,6 +2068,70 @@ fn check_json_ranges(ctx: &mut Ctx, n_corpora: u64, n_queries: usize) {
     }
 }
 
+// ---------------------------------------------------------------------------------------------
+// fast-field range: which scorer search_on_u64_ff builds per segment (min/max pruning)
+// ---------------------------------------------------------------------------------------------
+
+fn check_fast_range_kinds(ctx: &mut Ctx, n_corpora: u64, n_queries: usize) {
+    use tantivy::query::{AllScorer, EmptyScorer};
+    for ci in 0..n_corpora {
+        let mut rng = ctx.rng.fork();
+        let mut spec = gen_corpus(&mut rng, 1);
+        spec.merge = false;
+        // every second corpus: every document carries `num` (full column) and the values are narrow
+        if ci % 2 == 0 {
+            for d in spec.docs.iter_mut() { d.num = Some(5 + rng.below(6)); }
+        }
+        let b = match build(&spec) { Ok(b) => b, Err(_) => continue };
+        for _ in 0..n_queries {
+            let f = if rng.chance(1, 4) { F_ID } else { F_NUM };
+            let mut mk = |rng: &mut Rng| -> u64 { if f == F_ID { 995 + rng.below(80) } else { match rng.below(4) { 0 => boundary_u64(rng), _ => rng.below(14) } } };
+            let mut bound = |rng: &mut Rng| -> (char, u64) { match rng.below(5) { 0 => ('u', 0), 1 | 2 => ('i', mk(rng)), _ => ('e', mk(rng)) } };
+            let (mut lo, hi) = (bound(&mut rng), bound(&mut rng));
+            if lo.0 == 'u' && hi.0 == 'u' { lo = ('i', mk(&mut rng)); }
+            let to_b = |x: (char, u64)| match x.0 { 'i' => Bound::Included(Term::from_field_u64(fld(f), x.1)), 'e' => Bound::Excluded(Term::from_field_u64(fld(f), x.1)), _ => Bound::Unbounded };
+            let q = RangeQuery::new(to_b(lo), to_b(hi));
+            let case = json!({"kind": "fast-range-kind", "corpus": spec, "field": f, "lo": [lo.0.to_string(), lo.1], "hi": [hi.0.to_string(), hi.1]});
+            let w = match q.weight(EnableScoring::disabled_from_searcher(&b.searcher)) { Ok(w) => w, Err(e) => { ctx.report.violation("oracle", "C03:unexpected-error", e.to_string(), case); continue; } };
+            for (si, r) in b.searcher.segment_readers().iter().enumerate() {
+                let has_col = b.segs[si].iter().any(|(d, _)| d.fast.iter().any(|(g, _)| *g == f));
+                let sc = match catch_unwind(AssertUnwindSafe(|| w.scorer(r, 1.0))) {
+                    Ok(Ok(sc)) => sc,
+                    Ok(Err(e)) => { ctx.report.violation("oracle", "C03:unexpected-error", e.to_string(), case.clone()); continue; }
+                    Err(_) => { ctx.report.violation("oracle", "C03:panic", format!("range scorer panicked ({})", last_panic()), case.clone()); continue; }
+                };
+                let real = if sc.is::<AllScorer>() { "all" } else if sc.is::<EmptyScorer>() { "empty" } else { "range" };
+                let mut dbg = String::new();
+                // a schema-declared fast field has a (possibly empty) column in every segment
+                let expect = {
+                    let col = r.fast_fields().u64(FIELD_NAMES[f as usize]).unwrap();
+                    let full = col.index.get_cardinality() == tantivy::columnar::Cardinality::Full;
+                    let ans = ctx.model.ask(&format!("C03 ffrange {} {} {} {} {} {} {}", lo.0, lo.1, hi.0, hi.1, col.min_value(), col.max_value(), full as u8));
+                    dbg = format!("column min {} max {} full {} -> {ans}", col.min_value(), col.max_value(), full);
+                    ans.split(':').next().unwrap_or("").to_string()
+                };
+                ctx.report.count(&format!("fast-range-kind:{real}"));
+                ctx.report.case(&format!("frk|{}|{:?}|{:?}|{}|{}", f, lo, hi, si, b.segs[si].len()), has_col);
+                if real != expect {
+                    ctx.report.violation("model", "C03:fast-range-scorer-kind-model-vs-implementation", format!("segment {si}: search_on_u64_ff built a {real} scorer, the model says {expect} ({dbg}) for {}:{:?}..{:?}", FIELD_NAMES[f as usize], lo, hi), case.clone());
+                }
+                // the oracle on the scorer itself: it selects exactly the documents whose value is in range
+                let mut sc = sc;
+                let mut got: Vec<u32> = vec![];
+                let mut d = sc.doc();
+                while d != TERMINATED { got.push(d); d = sc.advance(); }
+                let inr = |v: u128| -> bool {
+                    (match lo.0 { 'i' => v >= lo.1 as u128, 'e' => v > lo.1 as u128, _ => true }) && (match hi.0 { 'i' => v <= hi.1 as u128, 'e' => v < hi.1 as u128, _ => true })
+                };
+                let want: Vec<u32> = b.segs[si].iter().enumerate().filter(|(_, (md, _))| md.fast.iter().any(|(g, v)| *g == f && inr(*v))).map(|(i, _)| i as u32).collect();
+                if got != want {
+                    ctx.report.violation("oracle", "C03:fast-range-scorer-differs-from-brute-force", format!("segment {si}: {real} scorer yields {} docs, {} expected for {}:{:?}..{:?}", got.len(), want.len(), FIELD_NAMES[f as usize], lo, hi), case.clone());
+                }
+            }
+        }
+    }
+}
+
 pub fn replay(ctx: &mut Ctx, case: &serde_json::Value) {
     match case["kind"].as_str().unwrap_or("") {
         "query" | "phrase-algorithms" => {
@@ -2118,6 +2182,7 @@ pub fn run(ctx: &mut Ctx) {
         "i64_to_u64 / f64_to_u64 = Gen.OrderEnc (extracted), monotone on sorted samples, term bytes = big-endian".into(),
         "range over a numeric JSON path (i64 / u64 bound term × i64 / u64 column, incl / excl / unbounded): DocSetCollector, TopDocs, Count = numeric meaning = Lean JsonRange.implMatch per segment; column type = colOf".into(),
         "phrase-prefix queries with position gaps / shifted offsets: all paths = Lean semPhrasePrefix (C03_phrase_prefix_iff)".into(),
+        "fast-field range: the scorer type search_on_u64_ff builds per segment (AllScorer / EmptyScorer / other, observed by downcast) = Lean FastRange.classify on the column's min / max / cardinality; the scorer's documents = brute force".into(),
         "exhaustive boolean trees (≤ 2 clauses quick, ≤ 3 thorough) × occur × msm over term/all/empty leaf kinds: all paths = answer = compile model".into(),
     ];
     std::panic::set_hook(Box::new(|info| {
@@ -2215,4 +2280,6 @@ pub fn run(ctx: &mut Ctx) {
             check_queries(ctx, &spec, &b, chunk);
         }
     }
+    let (fc, fq) = (ctx.budget(6, 80), ctx.budget(25, 40) as usize);
+    check_fast_range_kinds(ctx, fc, fq);
 }
